@@ -18,6 +18,12 @@ BUILTIN_ENUMS = {
     'Bound': ['Included', 'Excluded', 'Unbounded'],
     'Either': ['Left', 'Right'],
     'LevelInner': ['Trace', 'Debug', 'Info', 'Warn', 'Error'],
+    # std::io::ErrorKind: only identity of variants matters to the engine (no ordering is relied on)
+    'ErrorKind': ['NotFound', 'PermissionDenied', 'ConnectionRefused', 'ConnectionReset', 'HostUnreachable', 'NetworkUnreachable', 'ConnectionAborted',
+                  'NotConnected', 'AddrInUse', 'AddrNotAvailable', 'NetworkDown', 'BrokenPipe', 'AlreadyExists', 'WouldBlock', 'NotADirectory', 'IsADirectory',
+                  'DirectoryNotEmpty', 'ReadOnlyFilesystem', 'FilesystemLoop', 'StaleNetworkFileHandle', 'InvalidInput', 'InvalidData', 'TimedOut', 'WriteZero',
+                  'StorageFull', 'NotSeekable', 'QuotaExceeded', 'FileTooLarge', 'ResourceBusy', 'ExecutableFileBusy', 'Deadlock', 'CrossesDevices', 'TooManyLinks',
+                  'InvalidFilename', 'ArgumentListTooLong', 'Interrupted', 'Unsupported', 'UnexpectedEof', 'OutOfMemory', 'InProgress', 'Other', 'Uncategorized'],
 }
 
 
